@@ -26,10 +26,10 @@ type setDomain struct {
 	incl  [][]bool // MatchVersionPrerelease
 }
 
-func buildSetDomain(sys semver.System, level int) (*setDomain, int) {
+func buildSetDomain(sys semver.System, level int, extra ...string) (*setDomain, int) {
 	d := &setDomain{sys: sys}
 	rejected := 0
-	for _, s := range dom.SetConstraints(sys, level) {
+	for _, s := range append(dom.SetConstraints(sys, level), extra...) {
 		c, err := sys.ParseConstraint(s)
 		if err != nil {
 			rejected++
